@@ -63,7 +63,7 @@ def run(model: Model, rep: Report, tier: str) -> None:
         "'not a transport node' (R6.3). For ID* the single leaf builder must apply one intervention set to all variables (R6.4)."
     )
     rep.trusted_base = ["Sum.safe / Product.safe / '/' / marginalize only wrap existing leaves (C13)", "districts and query sets contain no transport node (only orderings and node lists of a selection diagram do)"]
-    rep.floors = {"R6.1": 3, "R6.2": 5 if model.has_func("y0.algorithm.transport._line_6_helper") else 4, "R6.3": 5, "R6.4": 2, "R6.5": 2}
+    rep.floors = {"R6.1": 3, "R6.2": 5 if model.has_func("y0.algorithm.transport._line_6_helper") else 4, "R6.3": 5, "R6.4": 2, "R6.5": 5}
     r6_5(model, rep)
     r6_1(model, rep)
     r6_2(model, rep)
